@@ -107,4 +107,37 @@ def stepSeq (A : DArr) : TStep → Option Run
   | .assign ix d => (writeSeq A d ix).map (runOf A)
   | s => some (stepS A s)
 
+/-- the array step a write / assignment with a sequence source amounts to: the assignment of the cast values, or
+a step that changes nothing (`reopen`) when the empty-source guard or the cast raises -/
+def seqAsArray (A : DArr) (d : Arr) (ix : IndexArg) : Option TStep :=
+  if (arrIsEmpty d && optTruthy (h5SelectedCount A ix)) then some .reopen
+  else
+    match castSeq A.dtype d with
+    | none => none
+    | some (.error _) => some .reopen
+    | some (.ok d') => some (.assign ix d')
+
+def arrayStepOf (A : DArr) : TStep → Option TStep
+  | .write d => seqAsArray A d .none
+  | .assign ix d => seqAsArray A d ix
+  | s => some s
+
+/-- the history with array sources only that a history with sequence sources amounts to (the array a sequence
+is cast to depends on the element type only, which no step changes; whether the cast raises decides the step) -/
+def toArrays (A : DArr) : List (TStep × Bool) → Option (List TStep)
+  | [] => some []
+  | (s, seq) :: rest =>
+    match (if seq then arrayStepOf A s else some s) with
+    | none => none
+    | some s' => (toArrays (stepS A s').1 rest).map (s' :: ·)
+
+/-- a history whose steps take arrays (`false`) or Python sequences (`true`) as sources; `none`: some sequence is
+outside the model (text parsed into numbers) -/
+def runMixed (A : DArr) : List (TStep × Bool) → Option DArr
+  | [] => some A
+  | (s, seq) :: rest =>
+    match (if seq then stepSeq A s else some (stepS A s)) with
+    | none => none
+    | some (B, _) => runMixed B rest
+
 end Nix.Nd
